@@ -50,8 +50,41 @@ func (x *Exec) varSort(name string) string {
 
 func (x *Exec) initConst(name string) string {
 	c := "v_" + mangle(name) + "_in"
-	x.vc.declConst(c, x.varSort(name))
+	if _, ok := x.vc.consts[c]; !ok {
+		x.vc.declConst(c, x.varSort(name))
+		if name != allocVar {
+			x.heapRefsAllocated(name, c, x.initConst(allocVar))
+		}
+	}
 	return c
+}
+
+// heapRefsAllocated: every reference stored in a heap refers to an object allocated earlier (a pointer cannot
+// point at an object that does not exist yet). Stated for heaps whose elements are pointers, maps or slices.
+func (x *Exec) heapRefsAllocated(name, heap, alloc string) {
+	et, ok := x.prog.heapElemType[name]
+	if !ok {
+		return
+	}
+	if _, ok := x.vc.heapSort[allocVar]; !ok {
+		x.vc.heapSort[allocVar] = SInt
+	}
+	var elem func(sel string) string
+	switch types.Unalias(et).Underlying().(type) {
+	case *types.Pointer, *types.Map:
+		elem = func(sel string) string { return sel }
+	case *types.Slice:
+		elem = func(sel string) string { return app("s.arr", sel) }
+	default:
+		return
+	}
+	if strings.HasPrefix(name, "HA.") {
+		sel := app("select", app("select", heap, "r"), "j")
+		x.vc.axiom(fmt.Sprintf("(forall ((r Int) (j Int)) (! (< %s %s) :pattern (%s)))", elem(sel), alloc, sel))
+	} else if strings.HasPrefix(name, "Hf.") || strings.HasPrefix(name, "Hp.") {
+		sel := app("select", heap, "r")
+		x.vc.axiom(fmt.Sprintf("(forall ((r Int)) (! (< %s %s) :pattern (%s)))", elem(sel), alloc, sel))
+	}
 }
 
 func (x *Exec) get(st *State, name string) Term {
@@ -354,19 +387,20 @@ func (x *Exec) havocFresh(n *Node, st *State, name string, allocPre string) {
 	c := x.vc.freshConst(shortVar(name)+"_f", sort)
 	n.assume(fmt.Sprintf("(forall ((r Int)) (! (=> (< r %s) (= (select %s r) (select %s r))) :pattern ((select %s r))))", allocPre, c, old, c))
 	x.set(st, name, c)
+	x.heapRefsAllocated(name, c, x.allocNow(st))
 }
 
 // havocCalleeEffects applies a callee's write set and its allocation-only effects.
 func (x *Exec) havocCalleeEffects(n *Node, st *State, callee *ssa.Function) {
 	w, f := x.prog.modSets(callee)
 	pre := x.allocNow(st)
+	x.bumpAlloc(n, st)
 	for _, h := range w {
 		x.havocVar(st, h)
 	}
 	for _, h := range f {
 		x.havocFresh(n, st, h, pre)
 	}
-	x.bumpAlloc(n, st)
 }
 
 func (x *Exec) allocNow(st *State) string {
@@ -388,6 +422,9 @@ func (x *Exec) bumpAlloc(n *Node, st *State) {
 func (x *Exec) havocVar(st *State, name string) {
 	c := x.vc.freshConst(shortVar(name)+"_h", x.varSort(name))
 	x.set(st, name, c)
+	if name != allocVar && (strings.HasPrefix(name, "HA.") || strings.HasPrefix(name, "Hf.") || strings.HasPrefix(name, "Hp.")) {
+		x.heapRefsAllocated(name, c, x.allocNow(st))
+	}
 }
 
 // ---------------------------------------------------------------------------
